@@ -466,7 +466,9 @@ func applyOp(st *histState, op HOp) (desc string, err error) {
 		t.ShuffleTips()
 		return "ShuffleTips", nil
 	case "reinit":
-		return "ReinitIndexes", t.ReinitIndexes()
+		e := t.ReinitIndexes()
+		st.freshIndex = e == nil // the next step may rely on the indexes as they are (no second re-index in front of it)
+		return "ReinitIndexes", e
 	case "clearlen":
 		t.ClearLengths(op.A%2 == 0, op.B%2 == 0)
 		return "ClearLengths", nil
